@@ -4,14 +4,24 @@ from vlib.core import Case, hx
 ID = "C10"
 NEEDS_CLI = True
 RULE = ("op msg.hash <bytes>: every length 0..1100 (quick: 0..300 + boundaries) with random content, "
-        "lengths 10^k-1, 10^k, 10^k+1, all 256 single-byte messages, non-UTF-8 content, special byte sequences (BOMs, line endings, NUL, Ctrl-Z, prefixes: vlib/magic.py) at the start, end and inside, library and `hash message` (stdin and file); "
+        "lengths 10^k-1, 10^k, 10^k+1, messages of 64 KiB..1 MiB handled before the small ones and explicit sequences big/small/big in one thread (op seq), all 256 single-byte messages, non-UTF-8 content, special byte sequences (BOMs, line endings, NUL, Ctrl-Z, prefixes: vlib/magic.py) at the start, end and inside, library and `hash message` (stdin and file); "
         "non-trivial = distinct message; judge recomputes Keccak-256 of the EIP-191 pre-image independently of the model's preimage function")
 EXHAUSTIVE_SWEEPS = {"quick": ["all 256 one-byte messages", "all lengths 0..300"],
                      "thorough": ["all 256 one-byte messages", "all lengths 0..1100"]}
 
 
 def gen(rng, tier):
+    from vlib.core import seq_line
     cases = []
+    # big messages first, so that whatever a big message leaves behind in the process is seen by the lines after it; and
+    # explicit sequences (one thread, in order): big then small, small then big then the same small, empty after anything
+    for n in (65535, 65536, 65537, 100000, 1048577):
+        cases.append(Case("msg.hash_rep %d %d" % (n, rng.getrandbits(8)), tags=("big-first",)))
+    small = ["msg.hash " + hx(b"hello world!"), "msg.hash -", "msg.hash " + hx(bytes(rng.getrandbits(8) for _ in range(100)))]
+    for big in (70000, 200000, 1 << 20):
+        for sm in small:
+            cases.append(Case(seq_line([sm, "msg.hash_rep %d 97" % big, sm, "msg.hash_rep %d 98" % big, "msg.hash -"]), tags=("sequence",)))
+    cases.append(Case(seq_line(small * 3), tags=("sequence",)))
     top = 1100 if tier == "thorough" else 300
     for n in range(0, top + 1):
         cases.append(Case("msg.hash " + hx(bytes(rng.getrandbits(8) for _ in range(n))), tags=("len:%d-digit" % len(str(n)),)))
